@@ -224,7 +224,7 @@ Class(nt) ==
                        P("c-expr-named", {}, <<"x", "=", "class", "D", "@tpc", "Her1", "{", "MemS", "}", ";">>),
                        P("c-export-default", {"mod"}, <<"export", "default", "@abs", "class", "@tpc", "Her1", "{", "MemS", "}">>),
                        P("c-export", {"mod"}, <<"export", "@abs", "class", "C", "@tpc", "Her1", "{", "MemS", "}">>),
-                       P("c-override", {}, <<"class", "C", "extends", "B", "{", "@modo", "m", "(", ")", "{", "}", "@modo", "x", "@annfi", "=", "1", ";", "}">>)}
+                       P("c-override", {"field"}, <<"class", "C", "extends", "B", "{", "@modo", "m", "(", ")", "{", "}", "@modo", "x", "@annfi", "=", "1", ";", "}">>)}
     [] nt = "Her1" -> {P("h1-none", {}, <<"@impl">>), P("h1-extends", {"amb"}, <<"extends", "B", "@ta", "@impl">>)}
     [] nt = "MemS" -> {P("ms-field", {"field"}, <<"@modf", "x", "@annfi", "=", "1", ";">>), P("ms-method", {}, <<"@mod", "m", "@tp", "(", "a", "@annp", ")", "@retm", "{", "}">>)}
     [] nt = "Her" -> {P("h-none", {}, <<"@impl">>), P("h-extends", {"amb"}, <<"extends", "B", "@ta", "@impl">>),
